@@ -2,6 +2,7 @@ From Coq Require Import ZArith List Bool.
 Import ListNotations.
 Require Import GV.Gen.Consts GV.Model.Outcome GV.Model.J1939 GV.Model.Governor GV.Model.Hcu GV.Model.Object
   GV.Model.HcuUnit GV.Model.Units GV.Model.IO GV.Model.C07_io GV.Spec.Units_spec.
+Require GV.Model.C17_io.
 Local Open Scope Z_scope.
 
 Definition kind_of (z : Z) : option ukind :=
@@ -35,11 +36,14 @@ Definition enc_recv (r : recv_out) : list Z :=
   ++ (match rx_last (r_ctx r) with Some o => 1 :: enc_object o | None => [0] end)
   ++ [Z.of_nat (length (r_sigs r))] ++ flat_map enc_object (r_sigs r).
 
+(* a case starting with 200 is a raw can_frame pushed through the real socket path
+   (CANSocket::recv + ControlNetwork::recv): the 0xFF normalisation half of C06, shared with C17 *)
 Definition units_run (l : list Z) : list Z :=
+  match l with 200 :: rest => C17_io.c17_run rest | _ =>
   match ucase_of l with
   | Some c => match unit_model c with Ok r => enc_recv r | Panic => panic_obs end
   | None => bad_case
-  end.
+  end end.
 
 (* the property predicates need the observation as a recv_out: decode what the harness printed.
    Rotator raw fields are not observable; they are re-derived from the frame by the reference
@@ -97,18 +101,20 @@ Definition dec_recv (l : list Z) (c : ucase) : option (outcome recv_out) :=
   end.
 
 Definition units_check (spec : ucase -> outcome recv_out -> bool) (l o : list Z) : bool :=
+  match l with 200 :: rest => C17_io.c17_check rest o | _ =>
   match ucase_of l with
   | Some c => match dec_recv o c with
               | Some ob => implb (ucase_wf c) (spec c ob)
               | None => false end
   | None => false
-  end.
+  end end.
 
 Definition c06_check := units_check c06_spec_ok.
 Definition c11_check := units_check c11_spec_ok.
 Definition c12_check := units_check c12_spec_ok.
 
 Definition units_nontriv (l o : list Z) : bool :=
+  match l with 200 :: _ => true | _ =>
   match ucase_of l with
   | Some c => ucase_wf c && (id_sa (f_id (uc_frame c)) =? u_da (uc_u c))
-  | None => false end.
+  | None => false end end.
